@@ -279,6 +279,11 @@ def rand_spec(profile, seed):
         # stored-event classes (size / alignment / copy-move traits, instance-counted): the deferred ones first
         big = list(dict.fromkeys(dset + rnd.sample(trig[:nev], 2)))
         events = [({"name": e, "size_class": rnd.randint(1, 7)} if e in big else e) for e in events]
+    # front-end options of back / back11 and a history policy on the root, drawn last so that the rest of a spec does not depend on them
+    if profile in ("dfb", "sto") and rnd.random() < 0.35:
+        machines[0]["queue_first"] = True          # event_queue_before_deferred_queue
+    if profile in ("hist", "ser") and rnd.random() < 0.3:
+        machines[0]["history"] = rnd.choice(["always", "shallow:" + trig[0]])
     sp = {"name": name, "events": events, "machines": machines}
     if profile == "ser":
         sp["serialize"] = True
